@@ -318,8 +318,8 @@ def run(tier, t0):
     for ver, s in c10.covering():
         part.count(None, classes=("covering",))
         part.check("json", check_json, {"ver": ver, "s": s})
-    part.merge(runner.hyp_shards("vf.props.c11", "hyp_part", 4800 if tier == "quick" else 160000))
-    for p in runner.parallel("vf.props.c11", "sweep_work", [(sh, 4000 if tier == "quick" else 60000, runner.SEED) for sh in range(runner.NPROC)]):
+    part.merge(runner.hyp_shards("vf.props.c11", "hyp_part", 4800 if tier == "quick" else 100000))
+    for p in runner.parallel("vf.props.c11", "sweep_work", [(sh, 4000 if tier == "quick" else 20000, runner.SEED) for sh in range(runner.NPROC)]):
         part.merge(p)
     for p in runner.parallel("vf.props.c11", "ball_part", [(sh, 2 if tier == "quick" else 12, runner.SEED) for sh in range(runner.NPROC)]):
         part.merge(p)
